@@ -23,6 +23,20 @@ RESULTS = {
  "C17": ("caught", ["C17"], ""),
  "C18": ("caught", ["C18"], ""),
  "C19": ("caught", ["C19"], ""),
+ # ---- round 2: a second, independent change per property (the agent was told the first one's summary) ----
+ "C01b": ("caught", ["C01"], ""),
+ "C02b": ("caught", ["C02"], ""),
+ "C03b": ("caught, but only because operations whose WHERE multiset holds identical solutions (UNION of the same branch, VALUES with a repeated row) had been added to the update alphabet shortly before this change arrived; the round-1 alphabet would have missed it", ["C03"], "blank-node templates over WHERE multisets with identical solutions (2 operations), added while reviewing the template-instantiation code"),
+ "C04b": ("caught", ["C04"], ""),
+ "C05b": ("caught", ["C05"], ""),
+ "C06b": ("caught", ["C06"], ""),
+ "C07b": ("caught", ["C07"], ""),
+ "C08b": ("caught", ["C08"], ""),
+ "C09b": ("caught", ["C09"], ""),
+ "C10b": ("missed", ["C10"], "gaps {0,1,2} never exceed a window width, so no window ever closed empty between two non-empty firings; a sparse-stream family (gaps {1,5}, every operator x window x configuration, single- and multi-thread) was added: 94608 streams, 11664 of them with an empty firing between non-empty ones"),
+ "C11b": ("missed", ["C11"], "every variant joined on at most one variable over IRIs; events now carry several triples and two variants were added: two WINDOW blocks joining on TWO variables over prefix-related literal values (\"1\"+\"23\" vs \"12\"+\"3\"), and a static part joining with a block on two variables"),
+ "C12b": ("caught", ["C12"], ""),
+ "C13b": ("missed", ["C13"], "documents declared a prefix once; a @prefix RE-BINDING kind was added (x: bound on line 0 and used up to the distinguished line, which re-binds x: for every later line) at every offset around every chunk boundary; the reference renderer now honours shadowed prefix names"),
  "C12": ("missed", ["C12"], "no rule set concluded into a window component; rule set 'xwin' (w2:p => w1:p) was added, so a listed fact can also be derived from a longer-lived listing"),
 }
 
